@@ -1,6 +1,7 @@
 SPECIFICATION Spec
 CONSTANTS
+  NoGitRec = TRUE
   SortedFlags = FALSE
   Emit = FALSE
-INVARIANTS WithinDocumented Deterministic
+INVARIANTS WithinDocumented Deterministic LnRight
 CHECK_DEADLOCK FALSE
